@@ -6,7 +6,7 @@ Tie:    harness/simdrv.c <-> Drivers/SimMain.lean on generated scenarios (profil
 """
 import simcheck
 
-PROFILES = ['cond', 'condcrowd', 'condfwd']
+PROFILES = ['cond', 'condcrowd', 'condfwd', 'coincide']
 
 
 def run(chk):
